@@ -142,6 +142,34 @@ def propagate_function(f, ref_names):
                         clobber = True
                     if isinstance(n, ast.ExceptHandler) and n.name in operands:
                         clobber = True
+            if not clobber:
+                # the objects read by <expr> must not be mutated between the assignment and the last use: explicit item / attribute stores and
+                # deletions, augmented assignments and mutating method calls on a path that <expr> reads through
+                paths = set()
+                for n in ast.walk(e):
+                    if isinstance(n, (ast.Name, ast.Attribute, ast.Subscript)):
+                        try:
+                            paths.add(ast.unparse(n.value) if isinstance(n, ast.Subscript) else ast.unparse(n))
+                        except Exception:
+                            pass
+                paths = {p_ for p_ in paths if p_ not in ('self',)}
+                MUTATORS = {'append', 'extend', 'pop', 'remove', 'insert', 'clear', 'update', 'add', 'discard', 'sort', 'reverse', 'popitem', 'setdefault', 'appendleft', 'popleft'}
+                last_stmt = max((k for k, s in enumerate(after) if any(n in uses_after for n in ast.walk(s))), default=-1)
+                for s in after[:last_stmt + 1]:
+                    for n in ast.walk(s):
+                        tgt = None
+                        if isinstance(n, (ast.Subscript, ast.Attribute)) and isinstance(n.ctx, (ast.Store, ast.Del)):
+                            tgt = n.value if isinstance(n, ast.Subscript) else n
+                        elif isinstance(n, ast.AugAssign):
+                            tgt = n.target.value if isinstance(n.target, ast.Subscript) else n.target
+                        elif isinstance(n, ast.Call) and isinstance(n.func, ast.Attribute) and n.func.attr in MUTATORS:
+                            tgt = n.func.value
+                        if tgt is not None:
+                            try:
+                                if ast.unparse(tgt) in paths:
+                                    clobber = True
+                            except Exception:
+                                pass
             if clobber:
                 continue
             sub = _Sub(v, e)
